@@ -34,6 +34,7 @@ class CrashRecorder(object):
         self.snap_root = snap_root
         self.snaps = []          # (tag, path, fingerprint)
         self.max_snaps = max_snaps
+        self.final = None
         self.events = 0
         self._last = None
 
@@ -67,9 +68,16 @@ class CrashRecorder(object):
         finally:
             sys.setprofile(None)
         self._snap("end")
+        # what a process killed right after the call returned leaves behind (also when nothing on disk changed)
+        d = tempfile.mkdtemp(prefix="final_", dir=self.snap_root)
+        self.final = os.path.join(d, "state")
+        shutil.copytree(self.watch, self.final)
         return res, exc
 
     def cleanup(self):
         for tag, path, fp in self.snaps:
             shutil.rmtree(os.path.dirname(path), ignore_errors=True)
         self.snaps = []
+        if getattr(self, "final", None):
+            shutil.rmtree(os.path.dirname(self.final), ignore_errors=True)
+            self.final = None
